@@ -119,24 +119,7 @@ class RefDRAM:
         """call once per controller cycle before sim.step(); returns the writes (rddata) for this cycle"""
         get = sim.get
         nph = self.nph
-        # 1. write data arriving this cycle
-        if self.pending_wr and self.pending_wr[0][0] <= cyc:
-            while self.pending_wr and self.pending_wr[0][0] <= cyc:
-                due, loc, w = self.pending_wr.pop(0)
-                data = 0
-                mask = 0
-                bpp = self.dw // 8
-                for i, ph in enumerate(self.phases):
-                    data |= get(ph.wrdata) << (i * self.dw)
-                    mask |= get(ph.wrdata_mask) << (i * bpp)
-                w[0], w[1] = data, mask
-                self.mem[loc] = self._apply(self.loc_value(loc), data, mask)
-                lst = self.inflight_w.get(loc)
-                if lst:
-                    lst.remove(w)
-                    if not lst:
-                        del self.inflight_w[loc]
-        # 2. decode commands of this cycle
+        # 1. decode commands of this cycle
         for p, ph in enumerate(self.phases):
             ras, cas, we = get(ph.ras_n), get(ph.cas_n), get(ph.we_n)
             rden, wren = get(ph.rddata_en), get(ph.wrdata_en)
@@ -172,6 +155,23 @@ class RefDRAM:
                     self.find("C02.refresh_not_all_ranks", t, kind=kind, ranks=ranks)
             for rank in ranks:
                 self._command(kind, rank, bank, addr, t, cyc)
+        # 2. write data arriving this cycle (after decoding, so that write_latency = 0 samples in the command's own cycle)
+        if self.pending_wr and self.pending_wr[0][0] <= cyc:
+            while self.pending_wr and self.pending_wr[0][0] <= cyc:
+                due, loc, w = self.pending_wr.pop(0)
+                data = 0
+                mask = 0
+                bpp = self.dw // 8
+                for i, ph in enumerate(self.phases):
+                    data |= get(ph.wrdata) << (i * self.dw)
+                    mask |= get(ph.wrdata_mask) << (i * bpp)
+                w[0], w[1] = data, mask
+                self.mem[loc] = self._apply(self.loc_value(loc), data, mask)
+                lst = self.inflight_w.get(loc)
+                if lst:
+                    lst.remove(w)
+                    if not lst:
+                        del self.inflight_w[loc]
         # 3. read data returning at cyc + 1 (written now, visible after the edge)
         writes = []
         if self.pending_rd and self.pending_rd[0][0] <= cyc + 1:
